@@ -208,8 +208,11 @@ private:
     static bool is_generated_code_name(const std::string_view str)
     {
         // template parameter names of the generated classes and accessors, an
-        // entity with such a name would redeclare them
-        return (str == "Byte") || (str == "Cursor") || (str == "T");
+        // entity with such a name would redeclare them. `tag_invoke` is the
+        // name of the functions generated next to enums and sets, a type
+        // with this name would hide them
+        return (str == "Byte") || (str == "Cursor") || (str == "T")
+               || (str == "tag_invoke");
     }
 
     static bool is_reserved_cpp_identifier(const std::string_view str)
